@@ -179,7 +179,9 @@ impl Collect for IdChanging {
     }
 }
 
-static HANDLES: Mutex<Vec<Box<dyn std::any::Any + Send>>> = Mutex::new(Vec::new());
+/// one closure per reload wrapper in the tree: `modify` with a body of `n` preemption points (it holds the
+/// wrapper's write lock meanwhile)
+static HANDLES: Mutex<Vec<Arc<dyn Fn(u64) + Send + Sync>>> = Mutex::new(Vec::new());
 
 fn build_plain<C: Collect + Send + Sync + 'static>(v: &Value, cfgs: &HashMap<usize, Arc<PCfg>>) -> BoxS<C> {
     match v["k"].as_str().unwrap_or("") {
@@ -198,7 +200,13 @@ fn build_plain<C: Collect + Send + Sync + 'static>(v: &Value, cfgs: &HashMap<usi
         "and_then" => Box::new(build_plain::<C>(&v["a"], cfgs).and_then(build_plain::<C>(&v["b"], cfgs))),
         "reload" => {
             let (l, h) = tracing_subscriber::reload::Subscriber::new(build_plain::<C>(&v["c"], cfgs));
-            HANDLES.lock().unwrap().push(Box::new(h));
+            HANDLES.lock().unwrap().push(Arc::new(move |n: u64| {
+                let _ = h.modify(|_inner| {
+                    for _ in 0..n {
+                        detsim::yield_point("reload:inside-modify");
+                    }
+                });
+            }));
             Box::new(l)
         }
         _ => Box::new(tracing_subscriber::subscribe::Identity::new()),
@@ -312,7 +320,7 @@ impl Engine for WrapEngine {
         &["C09"]
     }
     fn rule(&self, _p: &str) -> String {
-        "configuration = 1-5 recording layers in 1-3 top-level groups, each layer wrapped 0-3 times in {Box, Some, one-element Vec, reload, and_then with an Identity/None/empty-Vec neighbour}, extra None/empty-Vec/Identity groups, the collector as a whole plain/Box/Arc/Box<Box>, base collector Registry or an id-changing recording collector, optional veto (enabled for one callsite, or event_enabled for one event) by one layer; history = spans (new/clone/drop/enter/exit/record/follows_from) and events; non-trivial = at least 2 layers, at least one wrapper, and at least 5 lifecycle notifications; distinct = distinct plan digest".into()
+        "configuration = 1-5 recording layers in 1-3 top-level groups, each layer wrapped 0-3 times in {Box, Some, one-element Vec, reload, and_then with an Identity/None/empty-Vec neighbour}, extra None/empty-Vec/Identity groups, the collector as a whole plain/Box/Arc/Box<Box>, base collector Registry or an id-changing recording collector, optional veto (enabled for one callsite, or event_enabled for one event) by one layer; history = spans (new/clone/drop/enter/exit/record/follows_from) and events, in half of the runs that contain a reload wrapper raced (seeded schedules) by a second thread that sits inside Handle::modify holding the wrapper's write lock; non-trivial = at least 2 layers, at least one wrapper, and at least 5 lifecycle notifications; distinct = distinct plan digest".into()
     }
     fn components(&self) -> Value {
         json!({"real": ["Layered (Collect and Subscribe impls)", "forwarding impls for Box/Arc<Collect>, Box<dyn Subscribe>, Option, Vec, reload::Subscriber, Identity", "Registry"], "stub": ["recording layers (PlainLayer)", "id-changing base collector"]})
@@ -379,8 +387,13 @@ impl Engine for WrapEngine {
             }
             _ => Value::Null,
         };
-        let sched = Sched::op_order(rng.next_u64());
-        json!({"engine": "wrap", "prop": g.prop, "mode": g.mode, "cfg": {"groups": gvals, "base": base, "wrap": wrap, "veto": veto, "nlayers": nlayers}, "steps": steps, "sched": serde_json::to_value(&sched).unwrap()})
+        // when a reload wrapper is present, half of the runs race the history with a second thread that holds the
+        // wrapper's write lock inside `Handle::modify` (seeded schedules); the wrapped layer must still see everything
+        let has_reload = serde_json::to_string(&gvals).unwrap_or_default().contains("\"reload\"");
+        let sync = has_reload && rng.chance(1, 2);
+        let reloader: Vec<Value> = if sync { (0..rng.range(1, 4)).map(|_| json!({"h": rng.below(4), "yields": rng.range(1, 12)})).collect() } else { vec![] };
+        let sched = if sync { Sched::swarm(&mut rng, 300) } else { Sched::op_order(rng.next_u64()) };
+        json!({"engine": "wrap", "prop": g.prop, "mode": g.mode, "cfg": {"groups": gvals, "base": base, "wrap": wrap, "veto": veto, "nlayers": nlayers, "reloader": reloader}, "steps": steps, "sched": serde_json::to_value(&sched).unwrap()})
     }
 
     fn execute(&self, plan: &Value) -> RunResult {
@@ -390,6 +403,9 @@ impl Engine for WrapEngine {
         let wrap = plan["cfg"]["wrap"].as_str().unwrap_or("").to_string();
         let veto = plan["cfg"]["veto"].clone();
         let steps: Vec<Value> = plan["steps"].as_array().cloned().unwrap_or_default();
+        let reloader: Vec<Value> = plan["cfg"]["reloader"].as_array().cloned().unwrap_or_default();
+        let sync = sched.sync;
+        HANDLES.lock().unwrap().clear();
         let leaves = leaf_ids(&groups);
         let leaves2 = leaves.clone();
         let base2 = base.clone();
@@ -534,8 +550,32 @@ impl Engine for WrapEngine {
                 ev(format!("op {gi} {op} applied={} uid={} id={} id2={}", h.applied, h.uid, h.id, h.id2));
                 HIST.lock().unwrap().push(h);
             };
+            let mut reloader_tid = None;
+            if sync && !reloader.is_empty() {
+                let rl = reloader.clone();
+                reloader_tid = Some(detsim::spawn("reloader", move || {
+                    for r in rl {
+                        detsim::op_boundary("op");
+                        fault("reload_modify_in_progress");
+                        let f = {
+                            let hs = HANDLES.lock().unwrap();
+                            if hs.is_empty() {
+                                continue;
+                            }
+                            hs[r["h"].as_u64().unwrap_or(0) as usize % hs.len()].clone()
+                        };
+                        f(r["yields"].as_u64().unwrap_or(1));
+                    }
+                }));
+            }
             for (gi, s) in steps.iter().enumerate() {
+                if sync {
+                    detsim::op_boundary("op");
+                }
                 run(gi, s, &mut slots, &mut entered, &mut handles);
+            }
+            if let Some(t) = reloader_tid {
+                detsim::join(t);
             }
             let mut n = 0;
             while !entered.is_empty() {
@@ -549,7 +589,9 @@ impl Engine for WrapEngine {
         let plan2 = plan.clone();
         let finish = move || {
             let hist = std::mem::take(&mut *HIST.lock().unwrap());
-            let log = reclayer::take_llog();
+            // the reloader thread causes no notifications of its own (only callsite re-registration): judge the
+            // callbacks made on the history's thread
+            let log: Vec<LRec> = reclayer::take_llog().into_iter().filter(|r| r.thread == 0 || r.kind == "on_register_dispatch").collect();
             let _ = crate::rec::take_log();
             oracle(&plan2, &hist, &log, &leaves, &base, &veto);
         };
